@@ -20,10 +20,12 @@ mod common;
 mod fmt_v6hbh;
 #[path = "wire2/fmt_v6opt.rs"]
 mod fmt_v6opt;
+#[path = "wire2/fmt_v6routing.rs"]
+mod fmt_v6routing;
 
 use common::Format;
 
-const FORMATS: &[&Format] = &[&fmt_v6opt::FORMAT, &fmt_v6hbh::FORMAT];
+const FORMATS: &[&Format] = &[&fmt_v6opt::FORMAT, &fmt_v6hbh::FORMAT, &fmt_v6routing::FORMAT];
 
 fn format(name: &str) -> &'static Format {
     FORMATS.iter().find(|f| f.name == name).unwrap_or_else(|| panic!("unknown format {}", name))
